@@ -7,7 +7,7 @@ from . import C06 as _c06
 
 SITE_KINDS = {"module-level-mutable", "class-level-mutable", "threading", "global-statement"}
 RULE = ("batches of 2-8 independent library pipelines (own samples, registry, generators) started together behind a barrier "
-        "in one fresh process under sys.setswitchinterval(1e-6), each compared with its output when run alone in a fresh "
+        "in one fresh process under sys.setswitchinterval(1e-6) — once free-running and once with the rendering phases aligned by a second barrier —, each compared with its output when run alone in a fresh "
         "process; plus single calls from a fresh worker thread; correspondence: the render stage for the same cases (the "
         "model's single answer); non-trivial = a batch with >= 2 distinct cases; distinct by content")
 EXPLANATION = ("J2M.C15.worker_thread_ok / noninterference / exec_other_threads: the reference context is per thread with a "
@@ -24,11 +24,38 @@ def correspondence(ctx, batch):
         stages.stage_render(batch, [tuple(x) for x in c["inputs"]], registry, worker.cmps_from(c["cmps"]), [c["job"]])
 
 
+def context_sensitive_case(rng):
+    from .. import gen
+    sample = gen.gen_shared_shape(rng) if rng.random() < 0.7 else gen.gen_recursive_tree(rng)
+    job = common.gen_job(rng, layout="nested")
+    job["preamble"] = None
+    return {"inputs": [["Root", [sample]]], "cmps": [["percent", 7, 10], ["number", 10]], "job": job}
+
+
+def option_sensitive_pair(rng):
+    k = rng.randint(3, 9)
+    samples = [{"tag": "w%d" % i, "n": i, "sub": {"kind": "k%d" % (i % 3), "v": 1.5}} for i in range(k)]
+    fw = rng.choice(["base", "pydantic", "dataclasses"])
+    out = []
+    for lim in (2, 16):
+        job = common.gen_job(rng, fw=fw, layout="flat")
+        job.update({"maxLit": lim, "preamble": None, "postInit": False})
+        out.append({"inputs": [["Root", samples]], "cmps": [["percent", 7, 10], ["number", 10]], "job": job})
+    return out
+
+
 def falsify(ctx):
     rng = ctx.rng("fals")
     batches = []
-    for _ in range(ctx.n(40, 600)):
-        batches.append([_c06.gen_case(rng) for _ in range(rng.randint(2, 8))])
+    for _ in range(ctx.n(48, 600)):
+        b = [_c06.gen_case(rng) for _ in range(rng.randint(2, 8))]
+        # every batch holds at least one generation whose text depends on the reference context while it is rendered:
+        # nested layout with a model shared by sibling classes (absolute references through path injections)
+        b.insert(rng.randrange(len(b) + 1), context_sensitive_case(rng))
+        # ... and two generations of the same data that differ only in a per-call option (the literal limit)
+        for c in option_sensitive_pair(rng):
+            b.insert(rng.randrange(len(b) + 1), c)
+        batches.append(b)
     flat = [c for b in batches for c in b]
     chunks = [batches[i::8] for i in range(8)]
     with ThreadPoolExecutor(max_workers=9) as ex:
@@ -49,6 +76,11 @@ def falsify(ctx):
                     yield {"kind": "concurrent-differs-from-solo", "batch": b, "case": c,
                            "observed": {"concurrent": got, "solo": solo_by[id(c)]}}
                     break
+            for c, got in zip(b, r.get("phased") or []):
+                if got != solo_by[id(c)]:
+                    yield {"kind": "concurrent-differs-from-solo", "batch": b, "case": c, "schedule": "render phases aligned",
+                           "observed": {"concurrent": got, "solo": solo_by[id(c)]}}
+                    break
             for c, got in zip(b[:2], r["worker"]):
                 if got != solo_by[id(c)]:
                     yield {"kind": "worker-thread-differs", "batch": [c], "case": c,
@@ -62,7 +94,7 @@ def replay(ctx, hit):
     solo = worker.run_in_fresh_process(b, None, ctx.repo)
     for _ in range(5):
         r = worker.run_in_fresh_process([b], None, ctx.repo, 900, "threads")[0]
-        for c, got, s in zip(b, r["concurrent"], solo):
+        for c, got, s in list(zip(b, r["concurrent"], solo)) + list(zip(b, r.get("phased") or [], solo)):
             if got != s:
                 return {"kind": "concurrent-differs-from-solo", "observed": {"concurrent": got, "solo": s}}
         for c, got, s in zip(b[:2], r["worker"], solo):
